@@ -119,6 +119,18 @@ theorem ticks_then_stop (hT : DeepSource.IsTwin T)
       simp only [Option.map_some, List.append_assoc] at this ⊢
       exact this
 
+/-- **no pass after the finalizer**: whatever events follow the finalizer's, the goroutine has returned and receives
+none of them -/
+theorem nothing_after_stop (hT : DeepSource.IsTwin T)
+    (hj : j.clauseFor fin (.tick 0) = some [.exprS (.self "DeleteExpired" [])])
+    (hs : j.clauseFor fin .stop = some [.ret []]) (δs : List Int) (more : List JEv) (s : CSt K V) :
+    janitorRun T j fin s (δs.map .tick ++ .stop :: more) = janitorRun T j fin s (δs.map .tick ++ [.stop]) := by
+  induction δs generalizing s with
+  | nil => simp only [List.map_nil, List.nil_append, janitorRun, stop_returns T j fin hs]
+  | cons δ δs ih =>
+    simp only [List.map_cons, List.cons_append, janitorRun, tick_is_pass T j fin hT hj]
+    rw [ih]
+
 end twin
 
 /-! ### the two files -/
